@@ -957,18 +957,20 @@ def trace_geom():
         return a
 
     try:
-        cart = G.to_cartesian(one("φ"), one("θ"), one("r"))
-        sph = G.to_spherical(one("x"), one("y"), one("z"))
+        # (under `explore`: a data-dependent comparison in the source becomes an if-tree instead of an error)
+        cart = explore(lambda: [Expr.of(c[0]) for c in G.to_cartesian(one("φ"), one("θ"), one("r"))])
+        sph = explore(lambda: [Expr.of(c[0]) for c in G.to_spherical(one("x"), one("y"), one("z"))])
     finally:
         G.np = real_np
-    return {"cart": [Expr.of(c[0]) for c in cart], "sph": [Expr.of(c[0]) for c in sph]}
+    return {"cart": cart, "sph": sph}
 
 
 def emit_geom(t, path=None):
     lines = ["-- GENERATED on every run by harness/trace/tracer.py from /repo/src/pydrex/geometry.py -- do not edit",
              "import ModelR.Geom", "noncomputable section", "namespace ModelR.Geom", "",
-             "def traced_toCartesian (φ θ r : ℝ) : ℝ × ℝ × ℝ :=", "  (" + ", ".join(e.s for e in t["cart"]) + ")", "",
-             "def traced_toSpherical (x y z : ℝ) : ℝ × ℝ × ℝ :=", "  (" + ", ".join(e.s for e in t["sph"]) + ")", "", "end ModelR.Geom", ""]
+             "def traced_toCartesian (φ θ r : ℝ) : ℝ × ℝ × ℝ :=", "  (" + ", ".join(tree_lean(t["cart"], lambda v, i=i: v[i]) for i in range(3)) + ")", "",
+             "def traced_toSpherical (x y z : ℝ) : ℝ × ℝ × ℝ :=", "  (" + ", ".join(tree_lean(t["sph"], lambda v, i=i: v[i]) for i in range(3)) + ")", "",
+             "end ModelR.Geom", ""]
     text = "\n".join(lines)
     path = path or (GEN / "TracedGeom.lean")
     if not path.exists() or path.read_text() != text:
@@ -982,9 +984,9 @@ def selfcheck_geom(t, reps=10, seed=0):
     rng = np.random.default_rng(seed)
     for _ in range(reps):
         env = {"φ": float(rng.uniform(0, 6)), "θ": float(rng.uniform(0, 3)), "r": float(rng.uniform(0.1, 3)), **dict(zip("xyz", map(float, rng.normal(size=3))))}
-        if not np.allclose([e.v(env) for e in t["cart"]], np.ravel(G.to_cartesian(env["φ"], env["θ"], env["r"])), rtol=1e-13):
+        if not np.allclose([tree_eval(t["cart"], lambda v, i=i: v[i], env) for i in range(3)], np.ravel(G.to_cartesian(env["φ"], env["θ"], env["r"])), rtol=1e-13):
             return ["to_cartesian"]
-        if not np.allclose([e.v(env) for e in t["sph"]], np.ravel(G.to_spherical(env["x"], env["y"], env["z"])), rtol=1e-13):
+        if not np.allclose([tree_eval(t["sph"], lambda v, i=i: v[i], env) for i in range(3)], np.ravel(G.to_spherical(env["x"], env["y"], env["z"])), rtol=1e-13):
             return ["to_spherical"]
     return []
 
